@@ -27,7 +27,7 @@ _SIG = inspect.signature(Pervaporation.calculate_partial_fluxes)
 
 class ProcSetup:
     def __init__(self, kind, mode="vac", basis="weight", program=None, N=2, sfx="", n_curves=2, initial_permeances=False,
-                 model="NRTL", ncoef=3, mix=None, share=None):
+                 model="NRTL", ncoef=3, mix=None, share=None, p0_units=None, curve_basis="weight"):
         self.kind, self.mode, self.basis, self.program, self.N, self.model = kind, mode, basis, program, N, model
         self.isothermal = "non_isothermal" not in kind
         self.ideal = not kind.startswith("non_ideal")
@@ -58,13 +58,13 @@ class ProcSetup:
                 dc.mixture = self.mix
                 dc.membrane_name = "stub"
                 dc.feed_temperature = real("Tc%d%s" % (c, s))
-                dc.feed_compositions = [build.comp(real("cx%d_%d%s" % (c, i, s)), "weight") for i in range(2)]
+                dc.feed_compositions = [build.comp(real("cx%d_%d%s" % (c, i, s)), curve_basis) for i in range(2)]
                 dc.permeances = [(build.perm(real("cP1_%d_%d%s" % (c, i, s))), build.perm(real("cP2_%d_%d%s" % (c, i, s)))) for i in range(2)]
                 dc.partial_fluxes = None
                 dc.permeate_temperature = dc.permeate_pressure = dc.comments = None
                 cs.append(dc)
             self.curves = DiffusionCurveSet(name="set", diffusion_curves=cs)
-            self.P0 = (build.perm(real("P0_1" + s)), build.perm(real("P0_2" + s))) if initial_permeances else None
+            self.P0 = (build.perm(real("P0_1" + s), p0_units), build.perm(real("P0_2" + s), p0_units)) if initial_permeances else None
 
     # ---------------------------------------------------------------------------------------------
     def domain(self):
